@@ -153,6 +153,11 @@ def run(ctx: Ctx) -> None:
         steps4 = l1.solo_steps(scn4)
         jobs4 = [("list", [["c1", k], ["env", "kill_c1"], ["env", "damage_missing"], ["c2", 400], ["r1", 400]]) for k in range(steps4["c1"] - 14, steps4["c1"] - 5)]
         batches.append((scn4, l1.run_many(scn4, jobs4, parallel=False), "crash-orphan-lost-pointer"))
+        # version numbers are NUMBERS: with more than ten versions on disk, recovery must still pick the highest (v12, not v9)
+        scn6 = Scenario("hint-damage-many-versions", [A("c1", "committer", [{"t": "create"}, {"t": "append"}, {"t": "append"}]), rd], init_snaps=9)
+        jobs6 = [("list", [["env", "damage_" + kind], ["until", "c1", 2], ["env", "damage_" + kind2], ["c1", 400], ["r1", 400]])
+                 for kind, kind2 in (("missing", "text"), ("dangling", "missing"), ("empty", "legacy_zero"))]
+        batches.append((scn6, l1.run_many(scn6, jobs6, parallel=False), ""))
         # the tie-break the code gets right: an orphan of a dead committer SUPERSEDED by a later commit of the same version
         # number is older than the committed file, so recovery after pointer loss must pick the committed one
         scn5 = Scenario("crash-orphan-superseded", [A("c1", "committer", [{"t": "append"}]), A("c2", "committer", [{"t": "append"}, {"t": "create"}, {"t": "append"}]), rd])
